@@ -120,20 +120,13 @@ Section CborProofs.
       cbn [rev map]. rewrite <- app_assoc. reflexivity.
   Qed.
 
-  Lemma body_nonempty l : l <> [] -> Forall u64 l -> (1 <= length (body l))%nat.
-  Proof.
-    intros Hne H. destruct l as [|n l]; [congruence|]. inversion H; subst.
-    destruct (head_loads n [] ltac:(assumption)) as (fb & tl & Eh & _).
-    unfold body. cbn [map concat]. rewrite Eh. simpl. lia.
-  Qed.
-
-  (* CborIndefiniteLenArrayDecoder.Decode (Encoder.Encode l) = l for every non-empty list of uint64 *)
-  Theorem decode_encode l : l <> [] -> Forall u64 l ->
+  (* CborIndefiniteLenArrayDecoder.Decode (Encoder.Encode l) = l for every list of uint64 *)
+  Theorem decode_encode l : Forall u64 l ->
     decode (encode (map Z.of_N l)) = Ok (map (fun n => CInt (Z.of_N n)) l).
   Proof.
-    intros Hne H. rewrite (encode_uints l H). pose proof (body_nonempty l Hne H) as Lb.
+    intros H. rewrite (encode_uints l H).
     unfold Cbor.decode. cbn [app]. cbn [length nth skipn]. rewrite app_length. cbn [length].
-    destruct (Nat.ltb_spec (S (length (body l) + 1)) 3); [lia|].
+    destruct (Nat.ltb_spec (S (length (body l) + 1)) 2); [lia|].
     rewrite N.eqb_refl. cbn [negb].
     assert (La : last (arr_start :: body l ++ [arr_end]) 0 = arr_end).
     { change (arr_start :: body l ++ [arr_end]) with ((arr_start :: body l) ++ [arr_end]). apply last_last. }
@@ -164,7 +157,7 @@ Section CborProofs.
 
   Theorem decode_err enc e : decode enc = Err e -> e = ValueError.
   Proof.
-    unfold Cbor.decode. destruct (Nat.ltb_spec (length enc) 3); [unfold Err; congruence|].
+    unfold Cbor.decode. destruct (Nat.ltb_spec (length enc) 2); [unfold Err; congruence|].
     destruct (negb _); [unfold Err; congruence|]. destruct (negb _); [unfold Err; congruence|].
     intros E. destruct (dec_loop_err _ _ _ _ E) as [->| ->]; [reflexivity|].
     exfalso. eapply dec_loop_fuel; [|exact E]. rewrite skipn_length. lia.
